@@ -61,6 +61,7 @@ type mapEntry struct {
 type mapV struct {
 	kt, vt  types.Type
 	entries []*mapEntry
+	rc      value // identity cell for the happens-before race monitor (a map is one location)
 }
 
 type chanV struct {
